@@ -551,7 +551,7 @@ static void drawPgs(Rng& r, Cfg& c, bool th, bool bi)
       if (bi) c.dvals[n + i] = r.irange(1, c.nfac2);
     }
   }
-  c.flagGaus = r.coin(0.25);
+  c.flagGaus = r.coin(0.4);
   c.nbsimu   = r.irange(1, 3);
   c.nbtuba   = r.pick(std::vector<int>{10, 30, 100});
   c.nburn    = 10;
@@ -856,7 +856,8 @@ static std::string diffDetail(const Out& a, const Out& b)
 }
 
 // reproducibility trio + seeds-differ; 'mask' = samples on which two different realisations are allowed to coincide
-static void reproOracles(Rng& r, Ctx& c, const Cfg& cfg, const Out& A, const std::string& cls, const std::vector<char>& freeSample)
+static void reproOracles(Rng& r, Ctx& c, const Cfg& cfg, const Out& A, const std::string& cls, const std::vector<char>& freeSample,
+                         bool discreteOutput = false)
 {
   Out B = execute(cfg, cfg.seed, cfg.gseed);
   c.check("repro-b2b", K(cfg, "repro:back-to-back" + cls), A.sameBits(B), A.sameBits(B) ? 0 : 1, 0, A.sameBits(B) ? "" : diffDetail(A, B));
@@ -879,7 +880,9 @@ static void reproOracles(Rng& r, Ctx& c, const Cfg& cfg, const Out& A, const std
   }
   else c.skip("fresh-unavailable");
 
-  // another seed (or another global seed for the "do not reseed" class)
+  // another seed (or another global seed for the "do not reseed" class). Facies maps are discrete: two different
+  // realisations may legitimately coincide on a small grid, so "different" is only asserted on continuous outputs
+  if (discreteOutput) { c.skip("seeds-differ:discrete-output"); return; }
   int s2 = cfg.seed, g2 = cfg.gseed;
   if (cfg.seed > 0)
   {
@@ -1152,7 +1155,7 @@ static void caseGibbs(Rng& r, Ctx& c, const Cfg& cfg)
       if (col < 0) { c.skip("gibbs:name-not-found"); continue; }
       int ws;
       double e = viol(col, iv, ws);
-      c.check("bounds-named", K(cfg, std::string("bounds:by-name") + (nvar > 1 && nbs > 1 ? ":nvar>1:nbsimu>1" : "") + (cfg.gMoving ? ":moving" : ":unique") + ":" + btype(iv, ws)),
+      c.check("bounds-named", K(cfg, std::string("bounds:by-name") + (nvar > 1 && nbs > 1 ? ":nvar>1:nbsimu>1" : ":" + btype(iv, ws))),
               e <= tol, e, tol,
               e <= tol ? "" : fmt("column %s sample %d value %.17g outside [%g,%g] of variable %d", nm.c_str(), ws, A.cols[col][ws],
                                   cfg.L[iv * n + ws], cfg.U[iv * n + ws], iv + 1));
@@ -1179,7 +1182,7 @@ static void caseGibbs(Rng& r, Ctx& c, const Cfg& cfg)
     if (worst > tol && wc >= 0 && wsam >= 0)
       det = fmt("column %s sample %d value %.17g fits no variable's bounds (best: variable %d [%g,%g])", A.names[wc].c_str(), wsam,
                 A.cols[wc][wsam], wvar + 1, cfg.L[wvar * n + wsam], cfg.U[wvar * n + wsam]);
-    c.check("bounds", K(cfg, std::string("bounds:any-layout") + (cfg.gMoving ? ":moving" : ":unique") + ":" + btype(wvar, worst > tol ? wsam : -1)),
+    c.check("bounds", K(cfg, std::string("bounds:any-layout:") + btype(wvar, worst > tol ? wsam : -1)),
             worst <= tol, worst, tol, det);
   }
   // equalities are reproduced exactly (AGibbs::_isConstraintTight: "data is a hard data")
@@ -1344,12 +1347,13 @@ static void casePgs(Rng& r, Ctx& c, const Cfg& cfg)
                                         cfg.dvals[wi], A.cols[col][cfg.datTarget[wi]], rect[(int)cfg.dvals[wi]].lo[g], rect[(int)cfg.dvals[wi]].hi[g]));
       }
   }
-  if (!cfg.flagGaus)
+  if (cfg.flagGaus && ngrf == 1)
   {
+    // continuous output, one column per simulation: two ranks may not coincide
     auto colOf = [&](int, int is) { return is; };
     ranksOracle(c, cfg, A, 1, nbs, colOf, freeS, cls);
   }
-  reproOracles(r, c, cfg, A, cls, freeS);
+  reproOracles(r, c, cfg, A, cls, freeS, !cfg.flagGaus);
 }
 
 static void caseBiPgs(Rng& r, Ctx& c, const Cfg& cfg)
@@ -1386,7 +1390,7 @@ static void caseBiPgs(Rng& r, Ctx& c, const Cfg& cfg)
               bad == 0 ? "" : fmt("%d (pgs-major layout) / %d (simulation-major layout) data facies not honoured", badA, badB));
     }
   }
-  reproOracles(r, c, cfg, A, cls, freeS);
+  reproOracles(r, c, cfg, A, cls, freeS, !cfg.flagGaus);
 }
 
 // ---- generator-level seed semantics -------------------------------------------------------------------------
